@@ -7,7 +7,7 @@ Local Open Scope nat_scope.
 
 Fixpoint peers (s : src) : list nat :=
   match s with
-  | SPeer n _ => [n]
+  | SPeer n _ _ => [n]
   | SStruct cs => flat_map peers cs
   | _ => []
   end.
@@ -40,7 +40,7 @@ Qed.
 Lemma resolve_peers e p s : forall r, resolve e p s = Some r ->
   forall n, In n (peers r) -> exists l, alookup l e = Some n.
 Proof.
-  induction s as [m q|h q| |cs IH] using src_ind'; intros r H n Hn.
+  induction s as [m q k|h q| |cs IH] using src_ind'; intros r H n Hn.
   - simpl in H. destruct (alookup m e) as [i|] eqn:E; [|discriminate]. injection H as <-.
     simpl in Hn. destruct Hn as [<-|[]]. eauto.
   - simpl in H. destruct (memb h p); [|discriminate]. injection H as <-. destruct Hn.
@@ -150,7 +150,7 @@ Qed.
 Lemma producers_bound binds s : forall ps, producers binds s = Some ps ->
   forall p, In p ps -> In p (peers s) \/ exists h q, alookup h binds = Some (p, q).
 Proof.
-  induction s as [m q|h q| |cs IH] using src_ind'; intros ps H p Hp.
+  induction s as [m q k|h q| |cs IH] using src_ind'; intros ps H p Hp.
   - simpl in H. injection H as <-. destruct Hp as [<-|[]]. left; simpl; auto.
   - simpl in H. destruct (alookup h binds) as [[i q0]|] eqn:E; [|discriminate]. injection H as <-.
     destruct Hp as [<-|[]]. right. eauto.
